@@ -1,12 +1,12 @@
 SPECIFICATION Spec
 CONSTANTS
   NCalls = 4
-  MaxNow = 4
+  MaxNow = 8
   RecordHist = FALSE
   Classes = {"TRANSIENT", "UNKNOWN"}
   CConfigs <- ConfigsConc
   TickSet = {1, 2, 3}
-  OutKinds = {"ok", "exc", "cancel"}
+  OutKinds = {"ok", "exc", "excU", "abort", "cancel"}
 INVARIANT OnlyKnownViolations
 INVARIANT TypeOK
 
